@@ -240,6 +240,11 @@ def run(repo, rep):
         tr.check_function(repo.func('geodepy.coord', q), roles=('ellipsoid',))
     forward_rules(repo, rep)
     inverse_rules(repo, rep)
+    # the raising tests of both conversions as predicates over the property's input box (poles, equator and every octant included)
+    common.domain_guards(repo, rep, 'geodepy.convert', 'llh2xyz', ['lat', 'lon', 'h'], {'lat': (-90, 90), 'lon': (-360, 360), 'h': (-10000, 40000000)},
+                         'the quantifier of the property: latitude -90..90 (poles included), longitude -360..360, height -10 km..40 000 km')
+    common.domain_guards(repo, rep, 'geodepy.convert', 'xyz2llh', ['x', 'y', 'z'], {'x': (-50000000, 50000000), 'y': (-50000000, 50000000), 'z': (-50000000, 50000000)},
+                         'every octant of Cartesian space off the rotation axis')
     # the object wrappers of the observe_at list deliver these conversions unchanged (every notation of the result, heights, N value)
     from . import c15
     c15.delegation_rules(repo, rep, only=('CoordCart.geo', 'CoordGeo.cart'))
